@@ -80,6 +80,73 @@ def calls_of(f):
     return out
 
 
+def self_field_of(f, operand, depth=0):
+    """which field of `self` (argument 1) does the operand refer to?  Follows `_k = &(*_j)` / `_k = move _j` / `_k = &(*_1).i`
+    within the function; -> field index or None"""
+    if depth > 8 or operand.get('k') not in ('copy', 'move'):
+        return None
+    pl = operand['place']
+    loc = pl['local']
+    proj = [e for e in pl['proj'] if e['p'] != 'deref']
+    if loc == 1:
+        return proj[0]['i'] if proj and proj[0]['p'] == 'field' else None
+    if proj:
+        return None
+    defs = []
+    for b in f['body']['blocks']:
+        for st in b['stmts']:
+            if st.get('s') == 'assign' and st['place']['local'] == loc and not st['place']['proj']:
+                defs.append(st['rv'])
+    if len(defs) != 1:
+        return None
+    rv = defs[0]
+    if rv['r'] == 'ref':
+        pl2 = rv['place']
+        proj2 = [e for e in pl2['proj'] if e['p'] != 'deref']
+        if pl2['local'] == 1:
+            return proj2[0]['i'] if proj2 and proj2[0]['p'] == 'field' else None
+        if proj2:
+            return None
+        return self_field_of(f, {'k': 'copy', 'place': {'local': pl2['local'], 'proj': []}}, depth + 1)
+    if rv['r'] == 'use':
+        return self_field_of(f, rv['op'], depth + 1)
+    return None
+
+
+def hand_written_writer_ok(facts, impl, fields):
+    """a hand-written `Serialize` that writes what the derive would: every declared field, in order, under its own name
+    (named structs), or the single field (newtypes) -> (ok, detail)"""
+    wf = [facts.fn_by_idx[i['def']['idx']] for i in impl['items'] if i['name'] == 'serialize']
+    if not wf:
+        return False, 'serialize body not found'
+    f = wf[0]
+    named = not fields[0].isdigit()
+    seen = []
+    for b in f['body']['blocks']:
+        if b['cleanup']:
+            continue
+        t = b['term']
+        if t['t'] == 'call' and 'fn' in t['func']:
+            n = t['func']['fn'].get('name')
+            if n == 'serialize_field' and len(t['args']) >= 3:
+                seen.append((strip(t['args'][1].get('text')), self_field_of(f, t['args'][2])))
+            elif n == 'serialize_newtype_struct' and len(t['args']) >= 3:
+                seen.append((None, self_field_of(f, t['args'][2])))
+            elif n in ('serialize_tuple_struct', 'serialize_struct', 'end', 'branch', 'from_residual', 'from_output'):
+                continue
+            elif n and n.startswith('serialize_') and n not in ('serialize_field',):
+                return False, 'writer uses %s' % n
+    if named:
+        want = [(nm, k) for k, nm in enumerate(fields)]
+    else:
+        want = [(None, k) for k in range(len(fields))] if len(fields) == 1 else None
+    if want is None:
+        return False, 'hand-written writer of a multi-field tuple struct'
+    if seen != want:
+        return False, 'writes %s, the derive writes %s' % (seen, want)
+    return True, 'hand-written writer emits every field under its own name, in order'
+
+
 def strip(s):
     return s.strip('"') if s else s
 
@@ -104,7 +171,17 @@ def check_config(cx, rep, facts, cfg, want_borsh):
             last = lambda m_: (m_ or '').split('::')[-1]
             derived = ok and w[0]['from_derive'] and r[0]['from_derive'] and last(w[0]['macro']) == last(wmac) and last(r[0]['macro']) == last(rmac)
             detail = 'writer impls %d, reader impls %d' % (len(w), len(r))
-            if ok and not derived:
+            if ok and not derived and lib == 'serde' and r[0]['from_derive'] and last(r[0]['macro']) == last(rmac) and not w[0]['from_derive']:
+                # a hand-written Serialize next to a derived Deserialize: accepted when it writes exactly what the derive
+                # would (the table rule then compares it with the reader like any other writer)
+                fields_ = [f_['name'] for f_ in a['variants'][0]['fields']]
+                okw, why_ = hand_written_writer_ok(facts, w[0], fields_)
+                if okw:
+                    derived = True
+                    detail = why_
+                else:
+                    detail = 'hand-written writer: ' + why_
+            elif ok and not derived:
                 detail = 'writer from %s, reader from %s (expected both derived on the item)' % (
                     w[0]['macro'] if w[0]['from_derive'] else 'hand-written impl', r[0]['macro'] if r[0]['from_derive'] else 'hand-written impl')
             rep.ob('sym', inst, ok and derived, detail, fn=p, file=file, line=line,
